@@ -97,6 +97,11 @@ def impl_load(case):
             o.loads(json.dumps(case["preload"]))          # the same object is used for a second load
         except Exception:
             pass
+    if case.get("pre") == "failed":
+        try:        # a current-version document that is refused after its header was read
+            o.loads(json.dumps({"header": {"version": "1.2", "type": "productmd." + case["kind"]}, "payload": {}}))
+        except Exception:
+            pass
     try:
         o.loads(json.dumps(case["doc"]))
     except EXC as e:
